@@ -409,11 +409,13 @@ func runC08(t *testing.T, c HTTPCase) (*h.Violation, h.Info) {
 			b0 := shadow.M.Render(true)
 			if wantS := shadow.Expect(effective, op, ver); wantS.Class == model.OK && shadow.M.Render(true) != b0 {
 				outage = true // the request is fine and would write: its save will fail
-			} else {
-				// the request writes nothing (a read, a refusal, a delete of what is not there): it is
-				// answered as always - a server that is up serves from what it holds, disk or no disk
+			} else if !op.Mutating() {
+				// a read: it is answered as always - a server that is up serves from what it holds, disk
+				// or no disk. (A put / activate / delete that happens to change nothing is left alone: an
+				// implementation may persist it all the same, and whether it then succeeds on a broken disk
+				// is not something C08 - which does not quantify over faults - decides.)
 				idleOutage = true
-				info.Class("state-directory-unavailable-during-a-request-that-writes-nothing")
+				info.Class("state-directory-unavailable-during-a-read")
 			}
 		}
 		var pv *h.Violation
